@@ -70,7 +70,7 @@
 /* ------------------------------------------------------------------------------------------------ shadow (direct oracle) */
 typedef struct { int isstr; long long i; char s[40]; } SV;
 enum { K_NONE = 0, K_VAL, K_ARRAY, K_LIST, K_TABLE, K_TREE, K_TUPLE };
-typedef struct { int kind; int et; int vt; SV* xs; SV* ys; size_t n, cap; int mode; } SH;   /* mode: 0 new, 1 new_raw, 2 new_root */
+typedef struct { int kind; int et; int vt; SV* xs; SV* ys; size_t n, cap; int mode; } SH;   /* mode: 0 new, 1 new_raw, 2 new_root, 3 new_root by a worker thread that has ended */
 static SH sh[MAXSLOT];
 static var* S;              /* the live handles: an array in main's frame (the collector scans the stack) */
 /* ROOTS.  An object made with new_root is meant to be referenced from where the collector does not look (a file-scope variable,
@@ -80,7 +80,7 @@ static var* S;              /* the live handles: an array in main's frame (the c
  * that copies left behind by one operation are not what keeps the root alive in the next. */
 #define ROOTMASK ((uintptr_t)0x5a5a5a5a5a5a5a5aULL)
 static uintptr_t sroot[MAXSLOT];
-static __attribute__((noinline)) var sget(int a) { return (sh[a].kind != 0 && sh[a].mode == 2) ? (var)(sroot[a] ^ ROOTMASK) : S[a]; }
+static __attribute__((noinline)) var sget(int a) { return (sh[a].kind != 0 && (sh[a].mode == 2 || sh[a].mode == 3)) ? (var)(sroot[a] ^ ROOTMASK) : S[a]; }
 #define SG(a) sget(a)
 static __attribute__((noinline)) void deep_scrub(void) { volatile uint64_t pad[6144]; for (size_t i = 0; i < sizeof pad / sizeof pad[0]; i++) pad[i] = 0; }
 static var* TS;             /* heap Tuples (transcript-only part), also in main's frame */
@@ -649,7 +649,11 @@ static __attribute__((noinline)) void k_new_holder(int h, int kind, int rooted) 
 static int k_cmp_idx(const void* a, const void* b) { long long x = kk_[*(const int*)a], y = kk_[*(const int*)b]; return x < y ? -1 : x > y; }
 
 
-static void del_by_mode(var x, int mode) { if (mode == 1) del_raw(x); else if (mode == 2) del_root(x); else del(x); }
+/* mode 3: a root made by a worker thread that has ended.  The collector it was registered with is gone; del_root from another thread
+ * asks THAT thread's collector, which does not know the block: silently ignored in a build with the collector (KF-C19-del-silent),
+ * destruct + free under CELLO_NGC.  No thread can release such an object properly any more: the workload keeps it until the process
+ * ends and only forgets the handle. */
+static void del_by_mode(var x, int mode) { if (mode == 3) return; if (mode == 1) del_raw(x); else if (mode == 2) del_root(x); else del(x); }
 
 /* ------------------------------------------------------------------------------------------------ run-time types
  * Types made at run time with new(Type, name, size, instances…) from instance objects the harness provides (static storage: a
@@ -853,8 +857,74 @@ static __attribute__((noinline)) int s_root_registered(int a) {
   return 1;
 #endif
 }
+/* ---- objects that cross the END of a collector: `w <nvo|na|nl|nt|nr …>` — a worker thread makes the object with new_root (after
+ * some ordinary garbage of its own), publishes the pointer through a C global (sroot[], masked) and ends; Thread_Init_Run deletes the
+ * worker's collector (GC_Del: GC_Unmark + GC_Sweep, no mark phase), the main thread joins and goes on using the object.  A root stays
+ * until del_root: the teardown must spare it.  Oracle: before the object is touched after join (and before / after every later
+ * operation) its block must not have been freed (ASan: the header is not poisoned) and its header must still name its type. */
+#if defined(__SANITIZE_ADDRESS__)
+#define V18_ASAN 1
+#elif defined(__has_feature)
+#if __has_feature(address_sanitizer)
+#define V18_ASAN 1
+#endif
+#endif
+#ifdef V18_ASAN
+int __asan_address_is_poisoned(void const volatile* addr);
+#endif
+static size_t n_worker = 0, n_worker_seq = 0, n_worker_map = 0, n_worker_val = 0;
+static struct { int a, kind, et, vt, cnt; SV vs[MAXTOK]; char exc[48]; } w_req;
+static var w_fn;                   /* $(Function, w_thread_fn), lives in main's frame */
+static var w_type(int kind, int et) {
+  switch (kind) { case K_VAL: return et ? String : Int; case K_ARRAY: return Array; case K_LIST: return List; case K_TABLE: return Table; default: return Tree; }
+}
+static __attribute__((noinline)) void w_make(void) {
+  var o = NULL;
+  static var whb[MAXTOK][(sizeof(struct Header) + sizeof(struct Int)) / sizeof(var)];
+  for (int i = 0; i < 6; i++) { var g = new(String); print_to(g, 0, "garbage %i", $I(i)); }      /* swept by the teardown */
+  switch (w_req.kind) {
+    case K_VAL: o = w_req.et ? (var)new_root(String, $S(w_req.vs[0].s)) : (var)new_root(Int, $I(w_req.vs[0].i)); break;
+    case K_ARRAY: case K_LIST: {
+      var args[MAXTOK + 2]; args[0] = ty_obj(w_req.et);
+      for (int i = 0; i < w_req.cnt; i++) {
+        memset(whb[i], 0, sizeof whb[i]);
+        var e = header_init(whb[i], ty_obj(w_req.et), AllocStack);
+        if (w_req.et) ((struct String*)e)->val = w_req.vs[i].s; else ((struct Int*)e)->val = w_req.vs[i].i;
+        args[1 + i] = e;
+      }
+      args[1 + w_req.cnt] = Terminal;
+      o = new_root_with(w_req.kind == K_ARRAY ? Array : List, $(Tuple, args));
+      break; }
+    default: o = new_root_with(w_req.kind == K_TABLE ? Table : Tree, tuple(ty_obj(w_req.et), ty_obj(w_req.vt))); break;
+  }
+  for (int i = 0; i < 3; i++) { var g = new(Int, $I(i)); (void)g; }
+  sroot[w_req.a] = (uintptr_t)o ^ ROOTMASK; o = NULL;
+}
+static var w_thread_fn(var args) {
+  var exc = NULL;
+  V_TRY(exc, w_make());
+  if (exc) snprintf(w_req.exc, sizeof w_req.exc, "%s", v_exc_name(exc));
+  return NULL;
+}
+static __attribute__((noinline)) void w_run_thread(void) {
+  var t = new(Thread, w_fn);
+  call(t, $I(w_req.a));
+  join(t);
+}
+static __attribute__((noinline)) int w_root_alive(int a) {
+  char* p = (char*)(sroot[a] ^ ROOTMASK) - sizeof(struct Header);
+#ifdef V18_ASAN
+  if (__asan_address_is_poisoned(p)) return 0;
+#endif
+  return ((struct Header*)p)->type == w_type(sh[a].kind, sh[a].et);
+}
 static void s_audit(const char* when) {
   char w[96];
+  for (int a = 0; a < MAXSLOT; a++) if (sh[a].kind != K_NONE && sh[a].mode == 3 && !w_root_alive(a)) {
+    snprintf(w, sizeof w, "slot=%d at=%s", a, when);
+    XF("worker-root-destroyed-after-thread-end", w, "alive: a root stays until del_root");
+    sroot[a] = 0; S[a] = NULL; sh_free(&sh[a]);
+  }
   for (int a = 0; a < MAXSLOT; a++) if (sh[a].kind != K_NONE && sh[a].mode == 2 && !s_root_registered(a)) {
     snprintf(w, sizeof w, "slot=%d at=%s", a, when);
     XF("root-object-reclaimed-while-in-use", w, "registered-root");
@@ -870,6 +940,40 @@ static void unexpected(var e) {
 static void run_op(int nt, char** t) {
   const char* op = t[0];
   int a, b; SV v, k; long long n; var exc = NULL; char e1[128], e2[128];
+  /* ---------------- a constructor run by a worker thread that ends; the main thread joins and keeps the object */
+  if (!strcmp(op, "w")) {
+    if (nt < 2) BAD();
+    const char* c = t[1]; int kt = 0, vt = 0;
+    memset(&w_req, 0, sizeof w_req);
+    if (!strcmp(c, "nvo")) {
+      if (nt != 4 || !parse_slot(t[2], &a) || !parse_sv(t[3], &v)) BAD();
+      w_req.kind = K_VAL; w_req.et = v.isstr; w_req.vs[0] = v; w_req.cnt = 1;
+    } else if (!strcmp(c, "na") || !strcmp(c, "nl")) {
+      if (nt < 4 || !parse_slot(t[2], &a) || !parse_ty(t[3], &kt)) BAD();
+      w_req.kind = c[1] == 'a' ? K_ARRAY : K_LIST; w_req.et = kt; w_req.cnt = nt - 4;
+      for (int i = 0; i < w_req.cnt; i++) if (!parse_sv(t[4 + i], &w_req.vs[i])) BAD();
+    } else if (!strcmp(c, "nt") || !strcmp(c, "nr")) {
+      if (nt != 5 || !parse_slot(t[2], &a) || !parse_ty(t[3], &kt) || !parse_ty(t[4], &vt)) BAD();
+      w_req.kind = c[1] == 't' ? K_TABLE : K_TREE; w_req.et = kt; w_req.vt = vt;
+    } else BAD();
+    if (LIVE(a)) OOC();
+    if (w_req.kind == K_ARRAY || w_req.kind == K_LIST) for (int i = 0; i < w_req.cnt; i++) if (w_req.vs[i].isstr != w_req.et) OOC();
+    n_exec++; n_worker++; w_req.a = a;
+    if (w_req.kind == K_VAL) n_worker_val++; else if (w_req.kind == K_TABLE || w_req.kind == K_TREE) n_worker_map++; else n_worker_seq++;
+    V_TRY(exc, w_run_thread());
+    if (!exc && w_req.exc[0]) { XF("in-contract-operation-raised", w_req.exc, "none"); O("err %s", w_req.exc); sroot[a] = 0; return; }
+    if (exc) { unexpected(exc); O("err %s", v_exc_name(exc)); sroot[a] = 0; return; }
+    sh[a].kind = w_req.kind; sh[a].et = w_req.et; sh[a].vt = w_req.vt; sh[a].mode = 3; S[a] = NULL;
+    if (w_req.kind == K_TABLE || w_req.kind == K_TREE) { sh_reserve(&sh[a], 8); sh[a].n = 0; }
+    else { int cnt = w_req.kind == K_VAL ? 1 : w_req.cnt; sh_reserve(&sh[a], cnt + 1); for (int i = 0; i < cnt; i++) sh[a].xs[i] = w_req.vs[i]; sh[a].n = cnt; }
+    if (!w_root_alive(a)) {
+      snprintf(e1, sizeof e1, "slot=%d kind=%s", a, c);
+      XF("worker-root-destroyed-at-thread-end", e1, "alive: a root stays until del_root");
+      sroot[a] = 0; sh_free(&sh[a]);
+      O("err destroyed"); return;
+    }
+    O("ok"); check_obj(a, "w"); return;
+  }
   /* ---------------- constructors */
   if (!strcmp(op, "nv") || !strcmp(op, "nvr") || !strcmp(op, "nvo")) {
     if (nt != 3 || !parse_slot(t[1], &a) || !parse_sv(t[2], &v)) BAD();
@@ -2103,6 +2207,7 @@ int main(int argc, char** argv) {
   var obslots[MAXOB]; memset(obslots, 0, sizeof obslots); OB = obslots;
   rt_init();
   keep_fn = $(Function, keep_thread_fn);
+  w_fn = $(Function, w_thread_fn);
   size_t n; char** lines = v_read_lines(argv[1], &n);
   I("cfg=%s opt=%s header=%zu cache=%d", VCFG, VOPT, sizeof(struct Header), (int)CELLO_CACHE_NUM);
   for (size_t li = 0; li < n; li++) {
@@ -2153,6 +2258,7 @@ int main(int argc, char** argv) {
   }
   O("end live=%zu holders=%zu types=%zu objects=%zu", live, hlive, tylive, oblive);
   fprintf(vout, "T end tuples=%zu nested=%zu\n", tlive, nlive);
+  I("worker-threads=%zu worker-values=%zu worker-seqs=%zu worker-maps=%zu", n_worker, n_worker_val, n_worker_seq, n_worker_map);
   I("executed=%zu out-of-contract=%zu bad=%zu oracle-failures=%zu keep-ops=%zu keep-reads=%zu high-slot-entries-read=%zu tracked=%d edits=%zu elem-edits=%zu nested-ops=%zu thread-runs=%zu rt-ops=%zu", n_exec, n_ooc, n_bad, n_x, n_keep, n_keep_reads, n_high, led_top, n_ed, n_ed_elem, n_nested, n_thread_runs, n_rt);
   return 0;
 }
